@@ -43,6 +43,15 @@ func (s *RedundantMessenger) SendMessage(peerId string, message []byte, messageT
 		for {
 			select {
 			case <-s.ticker.C:
+				// A pending tick and the stop can be ready together and
+				// select picks one at random: never start another copy
+				// once we were told to stop.
+				select {
+				case <-s.stop:
+					log.Debugf("[RedundantSender] stop sending messages of type %d to %s", messageType, peerId)
+					return
+				default:
+				}
 				err := s.messenger.SendMessage(peerId, message, messageType)
 				if err != nil {
 					log.Debugf("[RedundantSender] SendMessageWithRetry: %v", err)
